@@ -16,10 +16,16 @@ CONFIG = dict(
          "control bytes, NUL, longer than NAME_MAX, aliases such as x/../bob), every 1-byte and a sample (thorough: all) of the 2-byte strings over an 18-symbol alphabet; "
          "each name through authenticate (two passwords), exists, update, set-admin, add, remove, list on a tree root/{base, base.user, base.admin, other/eve.user, x}; "
          "the tree outside base is hashed after every call; (b) add/update/set-admin/remove/auth/exists under strace with valid and invalid names: "
-         "the projected footprint must lie inside base; non-trivial = every case; distinct = distinct case terms",
+         "the projected footprint must lie inside base; (c) ~75 names outside the grammar (an existing user's name followed by '@', '/' or a blank and a tail that is a path, "
+         "white space, a control byte; leading '-' '.' '_' '@'; NUL, newline) with that user's correct password through the agent's saslauthd socket (every service / realm choice, "
+         "the realm equal to the tail of the login), basic-auth, the JSON API and an LDAP bind, next to a sibling store: each compared with the store's own verdict; "
+         "non-trivial = every case; distinct = distinct case terms",
     parts=[
         dict(drivers=[("store", "store")], run="C03", shard=4, header="From Whawty Require Import Names Record Store StoreSpec."),
         dict(pydrivers=[traces], run="C03t", shard=30, header=THDR, case_type="tcase"),
+        # (c) agent level: names outside the grammar through every network frontend, with every choice of the
+        # request's other fields (saslauthd service / realm equal to the tail of the login, ...)
+        dict(drivers=[("cmd/whawty-auth", "main")], run="C04", shard=300, timeout=900, header="From Whawty Require Import Frontends."),
     ],
     trusted_extra=["strace 6.1 (system-call observation); lib/tracelib.py projection of strace output"],
 )
